@@ -81,6 +81,7 @@ func (c *Ctx) ownRun() map[string]*simpleVerdict {
 		m.steps = 0
 		v, out := m.Call(newVariant, hc.val)
 		where := "NewVariant(" + hc.name + ")"
+		noteSample("OWN.model/host-values", where)
 		if out.kind == "panic" {
 			note("host-values", where+" panics: "+out.why, "")
 			continue
